@@ -21,7 +21,8 @@ META = {
             "functional): json(0,|w|)[value[...] EOI], one node per value, object, pair, array, string, number, bool/null, each with its exact byte "
             "span; (3) for a non-JSON text no fuel yields a match and some fuel yields SFail (the parse terminates with a failure). "
             "C18_recogniser_correct: rfc_parse w = Some d <-> json_doc w d. C18_json_text_is_utf8: every JSON text is valid UTF-8, so the UTF-8 "
-            "hypothesis restricts neither side. No deviation between json.pest and RFC 8259 was found (DEL and all non-ASCII scalar values are "
+            "hypothesis restricts neither side. C18_rfc_abnf_equivalent: the literal transcription of the RFC's ABNF (whitespace attached to the six "
+            "structural characters) generates exactly json_text. No deviation between json.pest and RFC 8259 was found (DEL and all non-ASCII scalar values are "
             "accepted unescaped, exactly U+0000..U+001F, quotation mark and reverse solidus are not). The statement is about Layer S on the "
             "regenerated grammar; its transfer to the shipped parser is the differential tie below (and properties C01/C02): the REAL "
             "pest_grammars::json::JsonParser and pest_vm on json.pest are run on all strings of up to 5 (quick: 4 and a quarter of 5; thorough: 6) "
@@ -40,7 +41,7 @@ META = {
 TRUST = BASE_TRUST + [
     "tools/pest2v.py (translator json.pest -> Gallina; its s-expression must equal the one printed by the real pest_meta parser, checked on every run)",
     "coq/Peg/Spec.v: Layer S, the documented PEG semantics (shared layer; tied to pest_vm by C01's correspondence)",
-    "coq/Json/Rfc8259.v: RFC 8259 transcribed as inductive relations (element = ws value ws form of the ABNF)",
+    "coq/Json/Rfc8259.v: RFC 8259 transcribed as inductive relations (element = ws value ws form; proved equivalent to the literal ABNF of coq/Json/RfcAbnf.v)",
 ]
 
 JSON_PEST = "grammars/src/grammars/json.pest"
